@@ -50,6 +50,21 @@ def run_row(row):
     before = b.to_text()
     nav("navigate(str)", lambda: b.navigate(ref).to_text(), target)
     nav("navigate(URL)", lambda: b.navigate(URL(ref)).to_text(), target)
+    # the same reference as an object put together piece by piece (query and fragment filled in after construction):
+    # taken only when it renders to the very same reference text
+    try:
+        pr = URL(ref)
+        r2 = URL(ref.split("#")[0].split("?")[0])
+        for k, v in pr.query_params.items(multi=True):
+            r2.query_params.add(k, v)
+        r2.fragment = pr.fragment
+        r3 = URL.from_parts(scheme=pr.scheme, host=pr.host, path_parts=pr.path_parts, query_params=pr.query_params, fragment=pr.fragment,
+                            port=pr.port, username=pr.username, password=pr.password)
+    except Exception:
+        r2 = r3 = None
+    for label, r_ in (("navigate(URL-ref-filled-in)", r2), ("navigate(URL-ref-from_parts)", r3)):
+        if r_ is not None and r_.to_text() == ref and not (row["rq"] or row["rf"]):
+            nav(label, lambda r_=r_: b.navigate(r_).to_text(), target)
     if b.to_text() != before or URL(base).to_text() != before:
         bad.append(("base-modified", b.to_text(), before))
     # the same absolute base URL as an object built another way (unrooted path_parts via from_parts, path assigned as text):
